@@ -28,7 +28,7 @@ RULE = ("BufferedSocket over a scripted socket: random byte streams over a 2-4 l
         "send/sendall/buffer/flush under partial sends and time-outs; NetstringSocket write_ns -> chunked wire -> "
         "read_ns with arbitrary payload bytes; thorough adds every network (all compositions x time-out placements) of every "
         "stream over {a,b} up to length 5 and every send script of length <= 4 over {1 byte, 2 bytes, all, time-out, "
-        "EWOULDBLOCK}.  non-trivial = a delimiter or a size boundary straddles a delivery "
+        "EWOULDBLOCK, slow} and every composition of a three-netstring wire.  non-trivial = a delimiter or a size boundary straddles a delivery "
         "edge, or a call needed >= 2 deliveries, or a Timeout left partial data buffered, or a send needed >= 2 "
         "partial sends / timed out with bytes unsent, or a netstring was read across >= 2 deliveries; distinct = "
         "distinct canonical case hash")
@@ -766,12 +766,31 @@ def gen_send_sweep(rng):
                                                ["buffer", c], ["flush"], ["flush"]], "retry": True}
 
 
+def gen_ns_sweep(rng):
+    """Thorough tier: the wire of three netstrings (payloads with ':' and ',' inside, an empty one) under EVERY
+    composition into deliveries (2^(len-1)), each with interruptions/slow deliveries at random gaps, read with
+    retry."""
+    payloads = [[97], [44, 58], []]
+    total = sum(len(str(len(p))) + 2 + len(p) for p in payloads)      # 1:a, 2:,:, 0:,  = 12 bytes
+    for parts in compositions(total):
+        cuts = []
+        for p in parts:
+            if rng.random() < 0.2:
+                cuts.append(rand_intr(rng, 0.4))
+            cuts.append(["S", p] if rng.random() < 0.1 else p)
+        yield {"kind": "ns", "wmax": 100, "wscript": [], "wops": [["write", p] for p in payloads],
+               "rmax": rng.choice([2, 10, 100]), "rtimeout": rng.choice([10, None]), "cuts": cuts, "junk": [],
+               "rops": [["read", None]] * 4, "retry": True}
+
+
 def generate(rng, tier, n):
     made = 0
     if tier == "thorough":
         for c in gen_sweep(rng):
             yield c
         for c in gen_send_sweep(rng):
+            yield c
+        for c in gen_ns_sweep(rng):
             yield c
     while made < n:
         r = rng.random()
